@@ -1,21 +1,7 @@
-// BigUint division API as seen by BigInt-level units.
+// BigUint division API as seen by BigInt-level units: contracts proved in unit u_divapi
+pub open spec fn udiv_ok(a: nat, b: nat, q: nat, m: nat) -> bool { a == q * b + m && m < b }
 impl BigUint {
-    //@ assume BigUint::div_rem(api) : Integer::div_rem/div_mod_floor for BigUint = div_rem_ref (shell in unit u_div; its long-division core div_rem_core is an assumed contract)
-    #[verifier::external_body]
-    pub fn div_rem(&self, other: &BigUint) -> (r: (BigUint, BigUint))
-        requires self.wf(), other.wf(), !mp() ==> other.v() != 0
-        ensures mp() ==> other.v() != 0, r.0.wf(), r.1.wf(), self.v() == r.0.v() * other.v() + r.1.v(), r.1.v() < other.v()
-    { unimplemented!() }
-    //@ assume BigUint::div_mod_floor(api) : same function as div_rem for BigUint (src/biguint.rs: both call div_rem_ref)
-    #[verifier::external_body]
-    pub fn div_mod_floor(&self, other: &BigUint) -> (r: (BigUint, BigUint))
-        requires self.wf(), other.wf(), !mp() ==> other.v() != 0
-        ensures mp() ==> other.v() != 0, r.0.wf(), r.1.wf(), self.v() == r.0.v() * other.v() + r.1.v(), r.1.v() < other.v()
-    { unimplemented!() }
-    //@ assume BigUint::mod_floor(api) : second component of div_rem_ref (src/biguint.rs)
-    #[verifier::external_body]
-    pub fn mod_floor(&self, other: &BigUint) -> (r: BigUint)
-        requires self.wf(), other.wf(), !mp() ==> other.v() != 0
-        ensures mp() ==> other.v() != 0, r.wf(), r.v() < other.v(), exists|q: nat| self.v() == #[trigger] (q * other.v()) + r.v()
-    { unimplemented!() }
+//@ stub u_divapi/div_rem
+//@ stub u_divapi/div_mod_floor
+//@ stub u_divapi/mod_floor
 }
